@@ -5,7 +5,7 @@ cd "$(dirname "$0")/.."
 names=${@:-$(ls seeded)}
 for n in $names; do
   P=$(python3 -c "import json;print(json.load(open('seeded/$n/meta.json'))['property'])")
-  git -C /repo apply seeded/$n/patch.diff 2>/dev/null || { echo "$n: patch does not apply"; continue; }
+  git -C /repo apply "$PWD/seeded/$n/patch.diff" 2>/dev/null || { echo "$n: patch does not apply"; continue; }
   out=$(./check $P --tier quick 2>/dev/null | grep -E "VIOLATION|^\[$P\]")
   git -C /repo checkout -- .
   if echo "$out" | grep -q "VIOLATION"; then
